@@ -58,6 +58,45 @@ def check(pm: ProgramModel, ctx: Ctx) -> None:
                   bad=f"get_core_features on abstract tree '{name}' gives "
                       f"{[f._f['name'] for f in got] if isinstance(got, list) else got}, the always-selected "
                       f"features are {[f._f['name'] for f in want]}")
+    # with cross-tree constraints only soundness is required: every reported feature is in every valid
+    # configuration (decided over all 2^n selections of small abstract models with constraints of each shape)
+    from ..exports import all_selections, model_names, model_valid
+    n_, o_ = mb.node, mb.op
+    shapes = {
+        "negated-literal": [n_(o_("NOT"), n_("B"))],
+        "literal": [n_("B")],
+        "requires-from-core": [n_(o_("REQUIRES"), n_("M"), n_("B"))],
+        "excludes-core": [n_(o_("EXCLUDES"), n_("M"), n_("C"))],
+        "or-of-optionals": [n_(o_("OR"), n_("B"), n_("C"))],
+        "equivalence": [n_(o_("EQUIVALENCE"), n_("B"), n_("C"))],
+        "implies-nested": [n_(o_("IMPLIES"), n_("B"), n_(o_("AND"), n_("C"), n_("G1")))],
+        "negated-and": [n_(o_("NOT"), n_(o_("AND"), n_("B"), n_("C")))],
+    }
+    for sname, trees in shapes.items():
+        root = mb.feature("R")
+        m_, b_, c_ = mb.feature("M"), mb.feature("B"), mb.feature("C")
+        mb.relation(root, [m_], 1, 1)
+        mb.relation(root, [b_], 0, 1)
+        mb.relation(root, [c_], 0, 1)
+        mb.relation(m_, [mb.feature("G1"), mb.feature("G2")], 1, 2)
+        fm = mb.model(root, [mb.constraint(f"k{i}", t) for i, t in enumerate(trees)])
+        try:
+            got = Interp(pm).call(fn, [fm])
+        except AbsRaise as exc:
+            got = ("raise", exc.what)
+        names = model_names(fm)
+        configs = [s_ for s_ in all_selections(names) if model_valid(fm, s_)]
+        always = set(names) if not configs else set.intersection(*[set(c) for c in configs])
+        if isinstance(got, list) and configs:
+            gn = [f._f["name"] for f in got]
+            wrong = [x for x in gn if x not in always]
+            okk = not wrong and "R" in gn and len(gn) == len(set(gn))
+        else:
+            gn, wrong, okk = got, [], isinstance(got, list)
+        ctx.check(okk, "C14-SOUND-CTC", f"ctc:{sname}", loc(fn.unit.path, fn.node),
+                  f"with constraint shape '{sname}' every reported feature is in every valid configuration",
+                  bad=f"with constraint shape '{sname}' get_core_features reports {gn}, but {wrong} are not in every "
+                      f"valid configuration (always selected: {sorted(always)})")
     # exit ----------------------------------------------------------------------------------------
     check_wrapper(pm, ctx, "C14-WRAP", "FMCoreFeatures", "get_core_features", "fm_core_features")
 
